@@ -60,6 +60,10 @@ def is_view(path, trait=None, method=None):
 
 
 def const_term(c):
+    if c.get("option") == "Some" and "payload" in c:
+        return ("agg", "core::option::Option::Some", (const_term(c["payload"]),), ("0",))
+    if c.get("option") == "None":
+        return ("agg", "core::option::Option::None", (), ())
     if "enum" in c:
         return ("enum", c["enum"][0], c["enum"][2])
     if "bool" in c:
